@@ -312,6 +312,33 @@ def _judge_read(X, fo_or_bytes, where, what):
 CONTEXTS = ["top", "top-after-12-digits", "in-list", "version-value"]
 
 
+def h_total_nesting(X):
+    """well-formed tnetstrings nested to a solver-chosen depth (the bounded symbolic buffers cannot reach deep recursion)"""
+    depth = X.choose("depth", [1, 30, 400, 1000, 3000, 20000])
+    kind = X.choose("container", ["list", "dict-value", "mixed"])
+    where = X.choose("where", ["top", "flow-metadata"])
+    s = b"0:]"
+    for i in range(depth):
+        if kind == "list" or (kind == "mixed" and i % 2):
+            s = str(len(s)).encode() + b":" + s + b"]"
+        else:
+            item = b"1:k," + s
+            s = str(len(item)).encode() + b":" + item + b"}"
+    if where == "flow-metadata":
+        # the value of the metadata key of an otherwise well-formed flow file
+        from mitmproxy.io import tnetstring
+
+        st = F.base_flow("http-resp").get_state()
+        st["metadata"] = {}
+        raw = tnetstring.dumps(st)
+        empty = b"8:metadata;0:}"
+        assert raw.count(empty) == 1
+        body = raw[raw.index(b":") + 1:-1].replace(empty, b"8:metadata;" + str(len(b"1:k," + s)).encode() + b":1:k," + s + b"}")
+        s = str(len(body)).encode() + b":" + body + b"}"
+    X.reach("depth-%d" % depth)
+    _judge_read(X, s, f"{kind} nested {depth} deep ({where})", lambda: f"a {len(s)}-byte well-formed tnetstring")
+
+
 def h_total_bytes(X, n, contexts, nmax=None):
     """the file content is `prefix + n symbolic bytes + suffix`; prefix/suffix put the symbolic region at top level
     (tnetstring.load path), inside a list (pop/split path) or make it the value of the "version" key of a flow dict
@@ -447,6 +474,10 @@ def obligations(tier):
                     "list element) x {delete, replace by one of 13 values of other types, add an unexpected key} + 13 version values",
              encoded=ENCODED[7:], must_reach=["judged", "flowread", "yielded-flow"], parallel_depth=3, budget_s=1800 if q else 7200),
     ]
+    obs.append(Symx("reader-total-nesting", h_total_nesting,
+                    bounds="well-formed tnetstrings of lists / dicts / alternating containers nested 1, 30, 400, 1000, 3000, 20000 deep, as the whole file "
+                           "or as the metadata value of a well-formed HTTP flow",
+                    encoded=ENCODED[2:10], must_reach=["flowread", "depth-1", "depth-20000"]))
     from vf.ob import Concrete
 
     obs.append(Concrete("shim-validation", F.validate_shims, bounds="int() contract of the symbolic decimal parser: all 256 bytes in 4 positions, all class "
